@@ -44,6 +44,7 @@ VARIABLES
     cat,          \* name -> [k : "none"|"table", id]
     nextTid, nextRs, nextDv,
     tlock,        \* tid -> holder of the per-table delete/compaction lock
+    mlock,        \* holder of the manifest lock (commit_changes holds it from apply to publish)
     dirs,         \* row-set directories on disk
     rsrows,       \* <<tid, rid>> -> rows of the row-set (immutable)
     dvrows,       \* <<tid, rid, did>> -> rows hidden by the delete vector
@@ -58,7 +59,7 @@ VARIABLES
     kf            \* deviations that fired
 
 vmv == <<epoch, snap, pins, delq, pool, vacNote>>
-stv == <<cat, nextTid, nextRs, nextDv, tlock, dirs, rsrows, dvrows, man>>
+stv == <<cat, nextTid, nextRs, nextDv, tlock, mlock, dirs, rsrows, dvrows, man>>
 acv == <<ss, results, comp, vac>>
 vars == <<vmv, stv, acv, fail, kf>>
 
@@ -134,7 +135,7 @@ Init ==
     /\ cat = [n \in Names |-> IF n \in InitNames THEN [k |-> "table", id |-> TidOf(n) - 1]
                               ELSE [k |-> "none", id |-> NoId]]
     /\ nextTid = Len(InitSeq) /\ nextRs = Cardinality(InitRs) /\ nextDv = 0
-    /\ tlock = [t \in 0..(Cardinality(Names) + 3) |-> Free]
+    /\ tlock = [t \in 0..(Cardinality(Names) + 3) |-> Free] /\ mlock = Free
     /\ dirs = InitRs /\ rsrows = InitRowsOf /\ dvrows = <<>>
     /\ man = [i \in 1..Len(InitSeq) |-> [o |-> "CT", n |-> InitSeq[i]]]
              \o [i \in 1..Cardinality(InitRs) |-> LET x == SetToSeq(InitRs)[i] IN [o |-> "ARS", t |-> x[1], r |-> x[2]]]
@@ -190,16 +191,17 @@ Start(s) ==
                    /\ UNCHANGED <<results, vmv, stv>>
          [] st.k = "ct" ->
               \* (ddl.create.logged) the record is durable before the catalog is touched
+              /\ mlock = Free
               /\ Commit(<<[o |-> "CT", n |-> st.t]>>)
               /\ ss' = [ss EXCEPT ![s] = [@ EXCEPT !.pc = "run"] @@ [scan |-> NoScan, task |-> [pc |-> "logged"]]]
-              /\ UNCHANGED <<results, pins, vacNote, cat, nextTid, nextRs, nextDv, tlock, dirs, rsrows, dvrows>>
+              /\ UNCHANGED <<results, pins, vacNote, cat, nextTid, nextRs, nextDv, tlock, mlock, dirs, rsrows, dvrows>>
          [] st.k = "dt" ->
               \* (ddl.drop.applied) the catalog is changed first
               IF TableGone(s)
               THEN Finish(s, [ok |-> FALSE, why |-> "notfound"]) /\ UNCHANGED <<vmv, stv>>
               ELSE /\ cat' = [cat EXCEPT ![st.t] = [k |-> "none", id |-> NoId]]
                    /\ ss' = [ss EXCEPT ![s] = [@ EXCEPT !.pc = "run"] @@ [scan |-> NoScan, task |-> [pc |-> "applied"]]]
-                   /\ UNCHANGED <<results, vmv, nextTid, nextRs, nextDv, tlock, dirs, rsrows, dvrows, man>>
+                   /\ UNCHANGED <<results, vmv, nextTid, nextRs, nextDv, tlock, mlock, dirs, rsrows, dvrows, man>>
     /\ LET boom == ss[s].st.k \in {"ins", "del", "sel"} /\ TableGone(s) IN
        /\ fail' = (fail \/ boom)
        /\ kf' = IF boom /\ "BuildAfterDropPanics" \in Dev THEN kf \cup {"BuildAfterDropPanics"} ELSE kf
@@ -275,13 +277,23 @@ InsPin(s) ==
        /\ dirs' = dirs \cup {key}
        /\ rsrows' = Put(rsrows, key, ss[s].st.rows)
        /\ ss' = [ss EXCEPT ![s].task = [pc |-> "flushed", e |-> epoch, key |-> key]]
-    /\ UNCHANGED <<epoch, snap, delq, pool, vacNote, cat, nextTid, nextDv, tlock, dvrows, man,
+    /\ UNCHANGED <<epoch, snap, delq, pool, vacNote, cat, nextTid, nextDv, tlock, mlock, dvrows, man,
                    results, comp, vac, fail, kf>>
 
-\* (txn.before_commit -> txn.committed)
-InsCommit(s) ==
+\* (txn.before_commit -> commit.applied) commit_changes takes the manifest lock and builds the
+\* next snapshot from the current one; nobody else can commit until it is published
+InsCommitA(s) ==
     /\ Running(s) /\ ss[s].st.k = "ins" /\ ss[s].task.pc = "flushed"
+    /\ mlock = Free
+    /\ mlock' = s
+    /\ ss' = [ss EXCEPT ![s].task.pc = "applied"]
+    /\ UNCHANGED <<vmv, cat, nextTid, nextRs, nextDv, tlock, dirs, rsrows, dvrows, man, results, comp, vac, fail, kf>>
+
+\* (commit.applied -> txn.committed) append to the manifest, publish, release the lock
+InsCommit(s) ==
+    /\ Running(s) /\ ss[s].st.k = "ins" /\ ss[s].task.pc = "applied"
     /\ Commit(<<[o |-> "ARS", t |-> ss[s].task.key[1], r |-> ss[s].task.key[2]]>>)
+    /\ mlock' = Free
     /\ ss' = [ss EXCEPT ![s].task.pc = "committed"]
     /\ IF TableGone(s) /\ "InsertAfterDrop" \in Dev THEN kf' = kf \cup {"InsertAfterDrop"} ELSE UNCHANGED kf
     /\ UNCHANGED <<pins, vacNote, cat, nextTid, nextRs, nextDv, tlock, dirs, rsrows, dvrows,
@@ -308,7 +320,7 @@ DelLock(s) ==
     /\ tlock[ss[s].tid] = Free
     /\ tlock' = [tlock EXCEPT ![ss[s].tid] = s]
     /\ ss' = [ss EXCEPT ![s].task.pc = "locked"]
-    /\ UNCHANGED <<vmv, cat, nextTid, nextRs, nextDv, dirs, rsrows, dvrows, man, results, comp, vac, fail, kf>>
+    /\ UNCHANGED <<vmv, cat, nextTid, nextRs, nextDv, mlock, dirs, rsrows, dvrows, man, results, comp, vac, fail, kf>>
 
 \* (txn.locked -> txn.before_commit | error) the row handlers of the scan are grouped by row-set;
 \* every target row-set must still be live (else the statement fails: conflict); one DV file each.
@@ -340,12 +352,21 @@ DelPrep(s) ==
                              \cup (IF gone # {} /\ tgt \subseteq liveNow /\ "DoubleDeleteCount" \in Dev
                                    THEN {"DoubleDeleteCount"} ELSE {})
                 /\ UNCHANGED <<tlock, pins, vacNote, snap, results>>
-    /\ UNCHANGED <<epoch, delq, pool, cat, nextTid, nextRs, dirs, rsrows, man, comp, vac, fail>>
+    /\ UNCHANGED <<epoch, delq, pool, cat, nextTid, nextRs, mlock, dirs, rsrows, man, comp, vac, fail>>
 
-\* (txn.before_commit -> txn.committed)
-DelCommit(s) ==
+\* (txn.before_commit -> commit.applied)
+DelCommitA(s) ==
     /\ Running(s) /\ ss[s].st.k = "del" /\ ss[s].task.pc = "prepared"
+    /\ mlock = Free
+    /\ mlock' = s
+    /\ ss' = [ss EXCEPT ![s].task.pc = "applied"]
+    /\ UNCHANGED <<vmv, cat, nextTid, nextRs, nextDv, tlock, dirs, rsrows, dvrows, man, results, comp, vac, fail, kf>>
+
+\* (commit.applied -> txn.committed)
+DelCommit(s) ==
+    /\ Running(s) /\ ss[s].st.k = "del" /\ ss[s].task.pc = "applied"
     /\ Commit(ss[s].task.ops)
+    /\ mlock' = Free
     /\ ss' = [ss EXCEPT ![s].task.pc = "committed"]
     /\ UNCHANGED <<pins, vacNote, cat, nextTid, nextRs, nextDv, tlock, dirs, rsrows, dvrows,
                    results, comp, vac, fail, kf>>
@@ -356,7 +377,7 @@ DelFinish(s) ==
     /\ tlock' = [tlock EXCEPT ![ss[s].tid] = Free]
     /\ Unpin(ss[s].task.e)
     /\ Finish(s, [ok |-> TRUE, cnt |-> ss[s].task.cnt])
-    /\ UNCHANGED <<epoch, delq, pool, cat, nextTid, nextRs, nextDv, dirs, rsrows, dvrows, man,
+    /\ UNCHANGED <<epoch, delq, pool, cat, nextTid, nextRs, nextDv, mlock, dirs, rsrows, dvrows, man,
                    comp, vac, fail, kf>>
 
 \* ------------------------------------------------------------------------ DDL
@@ -373,7 +394,7 @@ CreateApply(s) ==
             /\ nextTid' = nextTid + 1
             /\ Finish(s, [ok |-> TRUE, cnt |-> 1])
             /\ UNCHANGED kf
-    /\ UNCHANGED <<vmv, nextRs, nextDv, tlock, dirs, rsrows, dvrows, man, comp, vac, fail>>
+    /\ UNCHANGED <<vmv, nextRs, nextDv, tlock, mlock, dirs, rsrows, dvrows, man, comp, vac, fail>>
 
 \* (ddl.drop.applied -> ddl.drop.pinned) pin, list the row-sets and DVs of the pinned snapshot
 DropPin(s) ==
@@ -393,6 +414,7 @@ DropPin(s) ==
 \* (ddl.drop.pinned -> sess.next) commit, unpin, acknowledge
 DropCommit(s) ==
     /\ Running(s) /\ ss[s].st.k = "dt" /\ ss[s].task.pc = "pinned"
+    /\ mlock = Free
     /\ LET ops == ss[s].task.ops
            e   == ss[s].task.e
        IN  IF DrsPanics(snap[epoch], ops, 1)
@@ -408,7 +430,7 @@ DropCommit(s) ==
                 /\ vacNote' = IF Notifies(pins, e, epoch + 1) THEN Cap(vacNote + 1) ELSE vacNote
                 /\ Finish(s, [ok |-> TRUE, cnt |-> 1])
                 /\ UNCHANGED <<fail, kf>>
-    /\ UNCHANGED <<cat, nextTid, nextRs, nextDv, tlock, dirs, rsrows, dvrows, comp, vac>>
+    /\ UNCHANGED <<cat, nextTid, nextRs, nextDv, tlock, mlock, dirs, rsrows, dvrows, comp, vac>>
 
 (***************************************************************************)
 (* Compactor.  comp = [pc, pass, todo (tables still to visit), t, e, ops]  *)
@@ -450,12 +472,21 @@ CompVisit ==
                                  ops |-> (IF out = {} THEN <<>> ELSE <<[o |-> "ARS", t |-> t, r |-> nextRs]>>)
                                          \o [i \in 1..Len(q) |-> [o |-> "DRS", t |-> t, r |-> q[i][2]]]
                                          \o [i \in 1..Len(qd) |-> [o |-> "DDV", t |-> t, r |-> qd[i][2], d |-> qd[i][3]]]]
-                     /\ UNCHANGED <<epoch, snap, delq, pool, vacNote, cat, nextTid, nextDv, dvrows, man>>
+                     /\ UNCHANGED <<epoch, snap, delq, pool, vacNote, cat, nextTid, nextDv, mlock, dvrows, man>>
     /\ UNCHANGED <<ss, results, vac, kf>>
 
-\* (compactor.before_commit -> compactor.committed)
+\* (compactor.before_commit -> commit.applied | dead) take the manifest lock, apply to the snapshot
+CompCommitA ==
+    /\ comp.pc = "written" /\ mlock = Free
+    /\ ~DrsPanics(snap[epoch], comp.ops, 1)
+    /\ mlock' = "compactor"
+    /\ comp' = [comp EXCEPT !.pc = "applied"]
+    /\ UNCHANGED <<vmv, cat, nextTid, nextRs, nextDv, tlock, dirs, rsrows, dvrows, man, ss, results, vac, fail, kf>>
+
+\* (commit.applied -> compactor.committed), or the panic of the apply step
 CompCommit ==
-    /\ comp.pc = "written"
+    /\ \/ comp.pc = "applied"
+       \/ (comp.pc = "written" /\ mlock = Free /\ DrsPanics(snap[epoch], comp.ops, 1))
     /\ IF DrsPanics(snap[epoch], comp.ops, 1)
        THEN \* the table was dropped meanwhile: unwrap() panics inside commit_changes; the
             \* compactor task dies holding nothing (guards are dropped by unwinding)
@@ -465,8 +496,9 @@ CompCommit ==
             /\ pins' = UnpinAt(pins, comp.e)
             /\ snap' = Prune(snap, UnpinAt(pins, comp.e), epoch)
             /\ comp' = [pc |-> "dead", pass |-> comp.pass, todo |-> <<>>]
-            /\ UNCHANGED <<epoch, delq, pool, vacNote, man>>
+            /\ UNCHANGED <<epoch, delq, pool, vacNote, man, mlock>>
        ELSE /\ Commit(comp.ops)
+            /\ mlock' = Free
             /\ comp' = [comp EXCEPT !.pc = "committed"]
             \* the table was dropped since the visit: its new row-set is committed all the same
             /\ kf' = IF ~(\E n \in Names : cat[n].k = "table" /\ cat[n].id = comp.t)
@@ -480,7 +512,7 @@ CompRelease ==
     /\ tlock' = [tlock EXCEPT ![comp.t] = Free]
     /\ Unpin(comp.e)
     /\ comp' = CompNext([pc |-> "visit", pass |-> comp.pass, todo |-> comp.todo])
-    /\ UNCHANGED <<epoch, delq, pool, cat, nextTid, nextRs, nextDv, dirs, rsrows, dvrows, man,
+    /\ UNCHANGED <<epoch, delq, pool, cat, nextTid, nextRs, nextDv, mlock, dirs, rsrows, dvrows, man,
                    ss, results, vac, fail, kf>>
 
 \* (compactor.pass_done -> sleep)
@@ -526,16 +558,16 @@ VacUnlink ==
               /\ fail' = TRUE
               /\ kf' = kf \cup ({"DropRaceUnwrap"} \cap Dev)
               /\ UNCHANGED dirs
-    /\ UNCHANGED <<vmv, cat, nextTid, nextRs, nextDv, tlock, rsrows, dvrows, man, ss, results, comp>>
+    /\ UNCHANGED <<vmv, cat, nextTid, nextRs, nextDv, tlock, mlock, rsrows, dvrows, man, ss, results, comp>>
 
 (***************************************************************************)
 SessionStep(s) ==
     \/ Bind(s) \/ Start(s) \/ ScanPin(s) \/ ScanRead(s) \/ ReadOpen(s) \/ ReadBatch(s) \/ ReadClose(s)
-    \/ InsPin(s) \/ InsCommit(s) \/ InsFinish(s)
-    \/ DelPin(s) \/ DelLock(s) \/ DelPrep(s) \/ DelCommit(s) \/ DelFinish(s)
+    \/ InsPin(s) \/ InsCommitA(s) \/ InsCommit(s) \/ InsFinish(s)
+    \/ DelPin(s) \/ DelLock(s) \/ DelPrep(s) \/ DelCommitA(s) \/ DelCommit(s) \/ DelFinish(s)
     \/ CreateApply(s) \/ DropPin(s) \/ DropCommit(s)
 
-CompStep == CompWake \/ CompVisit \/ CompCommit \/ CompRelease \/ CompSleep
+CompStep == CompWake \/ CompVisit \/ CompCommitA \/ CompCommit \/ CompRelease \/ CompSleep
 VacStep == VacFind \/ VacUnlink
 
 Next == (\E s \in Sessions : SessionStep(s)) \/ CompStep \/ VacStep
@@ -596,7 +628,7 @@ Reopenable ==
       /\ ReplayedDb = FinalDb
 
 \* nobody is left holding a lock or a pin
-Clean == Quiescent => (pins = <<>> /\ \A t \in DOMAIN tlock : tlock[t] = Free)
+Clean == Quiescent => (pins = <<>> /\ mlock = Free /\ \A t \in DOMAIN tlock : tlock[t] = Free)
 
 \* disk space is eventually reclaimed: at quiescence only live row-sets (and uncommitted
 \* leftovers of failed statements) have directories -- reported, not required by any property
